@@ -72,6 +72,13 @@ NothingLeftIsDone  == (Valid = {}) => Done(cfg, env)
 DegenerateIffZeroGap == AllDegenerate(env.tab) <=> GapN(cfg.gap, env.tab) = 0
 ResetDrawsNew      == [][last'.op = "reset" => (draws' = draws + 1 /\ env'.hid = GameAt(draws') /\ Known(env'.tab) = Minimal /\ env'.steps = 0)]_vars
 
+\* ---- liveness (beyond the listed properties): an episode in which the agent keeps revealing coalitions terminates --
+\* `done` is eventually reported, and stays reported, whatever the budget, gap or computer
+FwdNext == \E a \in 0..(NAct - 1) : Step(a)
+FwdSpec == Init /\ [][FwdNext]_vars /\ WF_vars(FwdNext)
+EpisodeTerminates == <>[](Done(cfg, env))
+DoneIsStable      == [][Done(cfg, env) => Done(cfg, env')]_vars      \* along reveals only
+
 \* ---- C08 / C13: un-revealing right after revealing restores the environment exactly (what the greedy solver relies on)
 UndoRestores == \A a \in Valid : UnstepEnv(cfg, StepEnv(cfg, env, a), a) = env
 
